@@ -49,7 +49,7 @@ func (c Cfg) RefLayer(n uint64) int {
 
 var allBF = []uint{2, 3, 4, 16}
 var allKK = []string{"vk", "u64", "i64", "str", "bytes", "int", "uint", "sk", "skc", "strx"}
-var allVK = []string{"u64", "bytes", "str", "ptr", "iface", "long", "nb", "esc", "np"}
+var allVK = []string{"u64", "bytes", "str", "ptr", "iface", "long", "nb", "esc", "np", "agg"}
 var allCache = []string{"none", "big", "tiny", "one"}
 
 func pick[T any](r *rand.Rand, xs []T) T { return xs[r.Intn(len(xs))] }
